@@ -437,6 +437,12 @@ class SimPkgLoader(importlib.abc.Loader):
         if f is not None:
             w.fired(f)
             raise OSError(errno.EIO, "simulated get_data failure", path)
+        if ".zip/" in path:
+            # the first part of a package spread over several places is an
+            # archive some other importer serves: asking this loader for a
+            # file below it fails, and not with "file not found"
+            w.probe("pkg-path-entry-not-a-directory")
+            raise NotADirectoryError(errno.ENOTDIR, "not a directory", path)
         key = "pkgfile:" + path
         text = w.store.get(key)
         if text is None:
@@ -461,6 +467,13 @@ class SimPkgFinder(importlib.abc.MetaPathFinder):
             spec.submodule_search_locations = [
                 "%s/%s" % (NL_ROOT if spec_info.get("noloader") else PKG_ROOT,
                            fullname.replace(".", "/"))]
+            if spec_info.get("split"):
+                # a package spread over several places (pkgutil.extend_path):
+                # an archive, a directory that holds nothing of interest,
+                # and the directory with the package's data
+                home = spec.submodule_search_locations[0]
+                spec.submodule_search_locations = [
+                    home + ".zip", home + "-elsewhere", home]
         return spec
 
 
